@@ -1154,18 +1154,6 @@ def faithful(rec, res, got):
     return []
 
 
-def draft_signature(rec, clause):
-    """Narrow structural signature of a body mismatch after an error handler drafted a body and then raised
-    (None for anything else): which behaviour, through which response attribute the draft was written."""
-    if clause not in ('P4:body', 'P4:stale') or not rec.drafts:
-        return None
-    hs = [k for k, c in enumerate(rec.calls, 1) if c['site'] == 'handler']
-    if not hs or hs[-1] not in rec.drafts:
-        return None
-    beh, attr = rec.drafts[hs[-1]]
-    return {'clause': 'P4:body', 'handler': beh, 'draft_attr': attr}
-
-
 def report(ctx, own, clause, case, what, seen_other, signature=None):
     if clause.startswith(own):
         ctx.violation(clause, case, what, signature=signature)
@@ -1251,8 +1239,7 @@ def replay_behaviours(ctx, own, behaviours, both, seen_other, label, rich=False)
                     break
                 diffs = compare(exp_calls, exp_final, rec.calls, got) + faithful(rec, res, got)
                 for clause, what in diffs:
-                    report(ctx, own, clause, full, 'request %d: %s' % (ri + 1, what), seen_other,
-                           signature=draft_signature(rec, clause))
+                    report(ctx, own, clause, full, 'request %d: %s' % (ri + 1, what), seen_other)
                 if any(c.startswith('P') for c, _ in diffs):
                     break
     ctx.traces_validated += n
@@ -1319,7 +1306,6 @@ def random_trace(rng, *, asgi, ncomp, maxhooks, regs, classes, maxfaults=5, rend
         case['reqs'].append({'nregs': nregs, 'plan': [(c['act'], c['cls']) for c in rec.calls if c['site'] in APP_SITES],
                              'render': next((c['cls'] for c in rec.calls if c['site'] == 'render'), None)})
         runs.append((rec, res, got))
-    case['_sigs'] = [draft_signature(rec, 'P4:body') for rec, _, _ in runs]
     return trace, case, runs
 
 
@@ -1339,13 +1325,8 @@ def judge_traces(ctx, own, env, items, seen_other):
     for (t, c), v in zip(items, verdicts):
         if v != 'ok':
             clause = v.split('@')[0]
-            sig = None
-            if clause in ('P4:body', 'P4:stale') and c.get('_sigs'):
-                ri = int(v.split('@')[1]) // 1000
-                sig = c['_sigs'][ri] if ri < len(c['_sigs']) else None
-            c = {k: x for k, x in c.items() if k != '_sigs'}
             report(ctx, own, clause, dict(c, trace=t), 'trace rejected by PipelineTrace at (request-1)*1000+event %s' % v,
-                   seen_other, signature=sig)
+                   seen_other)
     return len(items)
 
 
